@@ -84,6 +84,33 @@ func registerBuiltins(p *Program) {
 		e.mapDelete(a[0].(*MapV), a[1])
 		return nil
 	})
+	p.reg("builtin:clear", func(e *Exec, g *G, a []Value) Value {
+		switch x := a[0].(type) {
+		case *MapV:
+			if x != nil {
+				e.accessMap(x, true)
+				x.E = nil
+			}
+		case SliceV:
+			if x.IsNil() {
+				return nil
+			}
+			n := int(e.concretize(x.Len, "clear length"))
+			off := int(e.concretize(x.Off, "clear offset"))
+			if x.G != nil {
+				for i := 0; i < n; i++ {
+					e.store(x.G.E[off+i], e.zero(x.Elem))
+				}
+			} else if x.A != nil {
+				for i := 0; i < n; i++ {
+					e.arrWrite(x.A, e.tc.Const(64, uint64(off+i)), e.tc.Const(x.A.EW, 0))
+				}
+			}
+		default:
+			panic(unsupported{"clear of this kind of value"})
+		}
+		return nil
+	})
 	p.reg("builtin:close", func(e *Exec, g *G, a []Value) Value {
 		ch, _ := a[0].(*ChanV)
 		if !e.closeChan(g, ch) {
@@ -389,6 +416,10 @@ func registerVerif(p *Program) {
 		others := false
 		for _, o := range e.gs {
 			if o != g && o.status == GRunnable {
+				others = true
+			}
+			// another goroutine is itself waiting in verifQuiesce (a hook): it goes on before main does
+			if o != g && g.isMain && o.status == GQuiesce {
 				others = true
 			}
 		}
@@ -1505,6 +1536,15 @@ func registerBytealg(p *Program) {
 		}
 		return indexByte(e, e.strBytes(s), c)
 	}
+	cmpStr := func(e *Exec, g *G, a []Value) Value {
+		x, y := a[0].(*StrV), a[1].(*StrV)
+		if x.Kind == SConc && y.Kind == SConc {
+			return e.tc.Const(64, uint64(int64(strings.Compare(x.S, y.S))))
+		}
+		panic(unsupported{"comparison of symbolic strings"})
+	}
+	p.reg("internal/bytealg.CompareString", cmpStr)
+	p.reg("strings.Compare", cmpStr)
 	p.reg("internal/bytealg.IndexByteString", indexByteStr)
 	p.reg("strings.IndexByte", indexByteStr)
 	p.reg("internal/bytealg.Equal", func(e *Exec, g *G, a []Value) Value {
